@@ -54,6 +54,9 @@
              goes to the old list and is lost);
              or a head with Expect: 100-continue: 224 send_continue(), whose _flush_some
              (do_close=True) may hit a disconnect errno -> handle_close      [DHandleClose]
+             or raise another OSError (item IAbort): the exception leaves received() through
+             the `with` (release) and handle_read; wasyncore.read() -> handle_error ->
+             handle_close (IoHRc2)
      IoRClen 233                                            R requests (len == 1)
      IoRCadd 238                                            server.add_task(self)
      IoRCrel end of the `with`                              release requests_lock
@@ -72,9 +75,8 @@
              wasyncore.dispatcher.close: connected := False again, del_channel, socket.close).
      turn_end: `while map: poll(...)`; poll's `list(map.items())` is taken in the same block as
              the last operation of the previous turn: a channel that has left the map by then
-             is not polled again (IoDead); one that leaves it later (a worker running
-             handle_close, F18) is still asked readable()/writable() in this turn, and skipped
-             after select (`map.get(fd) is None`).
+             is not polled again (IoDead); one that leaves it during the turn is skipped after
+             select (`map.get(fd) is None`).
      IoDead  the channel has left the map.
 
    Worker w (task.py handler_thread 66-84, channel.py service 419-516):
